@@ -5,6 +5,7 @@ same model function.)
 -/
 import EnumToolsModel.Lemmas.Index
 import EnumToolsModel.Lemmas.Examples
+import EnumToolsModel.Lemmas.TemplatesEq
 namespace ET.Thm
 
 /-- every variant has a name in the specification -/
@@ -89,5 +90,13 @@ theorem C03_name_is_rename_or_ident (v : Variant) :
 example : exD1.WF ∧ asStr exD1 {} .table (-5) = .ok [98, 98] ∧ asStr exD1 {} .table 127 = .ok [70]
     ∧ asStr exD2 {} .table 255 = .ok [67] ∧ asStr exD3 {} .table (-128) = .ok [65] := by
   refine ⟨exD1_WF, by decide, by decide, by decide, by decide⟩
+
+/-- `as_str`, `Display`, `Debug`, `IntoStr` as the source is written now (`Generated/Templates.lean`), in every resolved mode -/
+theorem C03_source (D : Derive) (tg : Target) (md : Modes) (h : D.WF) (ht : tg.WF) (hm : md.asStr ≠ .auto) (v : Int) (hv : v ∈ D.vals) :
+    ∃ n, spec.asStr D.sem v = some n ∧ T.asStr D tg md v = .ok n ∧ T.display D tg md v = .ok n ∧
+      T.debug D tg md v = .ok n ∧ T.intoStr D tg md v = .ok n := by
+  obtain ⟨n, hs, hn⟩ := C03_asStr D tg h ht md.asStr v hv
+  exact ⟨n, hs, by rw [T.asStr_eq D tg md h hm v hv, hn], by rw [T.display_eq D tg md h hm v hv, hn],
+    by rw [T.debug_eq D tg md h hm v hv, hn], by rw [T.intoStr_eq D tg md h hm v hv, hn]⟩
 
 end ET.Thm
